@@ -1410,9 +1410,11 @@ class StoreLib(LibBase):
     def model_to_json(self, st, m, ob):
         """read the ENTRY state of the verified function out of a model."""
         old = getattr(ob.ctx, "old", None)
-        d = {"entry": dump_state(self, old, m) if old is not None else None, "exit": dump_state(self, st, m)}
         args = getattr(ob.ctx, "args", None) or {}
-        d["args"] = {k: dump_value(v, m) for k, v in args.items()}
+        dargs = {k: dump_value(v, m) for k, v in args.items() if isinstance(v, V.Value) and not isinstance(v, FieldRef)}
+        extra = [v for v in dargs.values() if isinstance(v, int)]
+        d = {"entry": dump_state(self, old, m, extra) if old is not None else None, "exit": dump_state(self, st, m, extra)}
+        d["args"] = dargs
         return d
 
 
@@ -1750,7 +1752,7 @@ def dump_value(v, m):
     return _dumper(m)(v)
 
 
-def dump_state(lib, st, m):
+def dump_state(lib, st, m, extra_ids=()):
     val = _dumper(m)
 
     def ev(t):
@@ -1764,7 +1766,7 @@ def dump_state(lib, st, m):
     heap = {}
     for attr in ("triggered", "requesting_process", "priority_to_put", "priority_to_get"):
         if attr in st.h and st.h[attr] is not None:
-            ids = set()
+            ids = set(extra_ids)
             for k, v in out["fields"].items():
                 if isinstance(v, list):
                     for x in v:
